@@ -1,6 +1,6 @@
 /-
   PINS of property C02: the decision tokens of every item the property is anchored in
-  (properties.jsonl `anchors` + tools/anchor_extra.json), as they were in /repo at 32de816 when the
+  (properties.jsonl `anchors` + tools/anchor_extra.json), as they were in /repo at 770977e when the
   model was validated against the source.  Written by tools/pin_anchors.py; the right-hand sides are
   compared by the kernel with lean/Chrono/Extracted/Anchors.lean, which tools/extractors/anchors.py
   regenerates from /repo's working tree on every check.  A theorem that fails here means: anchored
@@ -66,6 +66,10 @@ theorem src_datetime_mod_rs_fn_timestamp_subsec_millis : C02_src_datetime_mod_rs
 theorem src_datetime_mod_rs_fn_timestamp_subsec_nanos : C02_src_datetime_mod_rs_fn_timestamp_subsec_nanos =
     ["&", "self", "->", "u32", "self", "v1", "time(", "nanosecond("] := by decide +kernel
 
+/-- src/datetime/mod.rs:fn with_timezone -/
+theorem src_datetime_mod_rs_fn_with_timezone : C02_src_datetime_mod_rs_fn_with_timezone =
+    ["<", "Tz2", "TimeZone", ">", "&", "self", "v1", "&", "Tz2", "->", "DateTime", "<", "Tz2", ">", "v1", "from_utc_datetime(", "&", "self", "v2"] := by decide +kernel
+
 /-- src/datetime/mod.rs:impl From for DateTime -/
 theorem src_datetime_mod_rs_impl_From_for_DateTime : C02_src_datetime_mod_rs_impl_From_for_DateTime =
     ["From", "<", "DateTime", "<", "Utc", ">>", "for", "DateTime", "<", "FixedOffset", ">", "from(", "v1", "DateTime", "<", "Utc", ">", "->", "Self", "v1", "with_timezone(", "&", "FixedOffset", "east_opt(", "0", "unwrap(", "§", "From", "<", "DateTime", "<", "Utc", ">>", "for", "DateTime", "<", "Local", ">", "from(", "v1", "DateTime", "<", "Utc", ">", "->", "Self", "v1", "with_timezone(", "&", "Local", "§", "From", "<", "DateTime", "<", "FixedOffset", ">>", "for", "DateTime", "<", "Utc", ">", "from(", "v1", "DateTime", "<", "FixedOffset", ">", "->", "Self", "v1", "with_timezone(", "&", "Utc", "§", "From", "<", "DateTime", "<", "FixedOffset", ">>", "for", "DateTime", "<", "Local", ">", "from(", "v1", "DateTime", "<", "FixedOffset", ">", "->", "Self", "v1", "with_timezone(", "&", "Local", "§", "From", "<", "DateTime", "<", "Local", ">>", "for", "DateTime", "<", "Utc", ">", "from(", "v1", "DateTime", "<", "Local", ">", "->", "Self", "v1", "with_timezone(", "&", "Utc", "§", "From", "<", "DateTime", "<", "Local", ">>", "for", "DateTime", "<", "FixedOffset", ">", "from(", "v1", "DateTime", "<", "Local", ">", "->", "Self", "v1", "with_timezone(", "&", "v1", "offset(", "fix(", "§", "From", "<", "SystemTime", ">", "for", "DateTime", "<", "Utc", ">", "from(", "v1", "SystemTime", "->", "DateTime", "<", "Utc", ">", "let(", "v2", "v3", "match", "v1", "duration_since(", "UNIX_EPOCH", "Ok(", "v4", "=>", "v4", "as_secs(", "as", "i64", "v4", "subsec_nanos(", "Err(", "v5", "=>", "v4", "v5", "duration(", "let(", "v2", "v3", "v4", "as_secs(", "as", "i64", "v4", "subsec_nanos(", "if", "v3", "==", "0", "-", "v2", "0", "else", "-", "v2", "-", "1", "1000000000", "-", "v3", "Utc", "timestamp_opt(", "v2", "v3", "unwrap(", "§", "From", "<", "SystemTime", ">", "for", "DateTime", "<", "Local", ">", "from(", "v1", "SystemTime", "->", "DateTime", "<", "Local", ">", "DateTime", "<", "Utc", ">", "from(", "v1", "with_timezone(", "&", "Local", "§", "<", "Tz", "TimeZone", ">", "From", "<", "DateTime", "<", "Tz", ">>", "for", "SystemTime", "from(", "v1", "DateTime", "<", "Tz", ">", "->", "SystemTime", "v2", "v1", "timestamp(", "v3", "v1", "timestamp_subsec_nanos(", "if", "v2", "<", "0", "UNIX_EPOCH", "-", "Duration", "new(", "-", "v2", "as", "u64", "0", "+", "Duration", "new(", "0", "v3", "else", "UNIX_EPOCH", "+", "Duration", "new(", "v2", "as", "u64", "v3", "§", "From", "<", "v1", "Date", ">", "for", "DateTime", "<", "Utc", ">", "from(", "v2", "v1", "Date", "->", "DateTime", "<", "Utc", ">", "DateTime", "<", "Utc", ">", "from(", "&", "v2", "§", "From", "<", "&", "v1", "Date", ">", "for", "DateTime", "<", "Utc", ">", "from(", "v2", "&", "v1", "Date", "->", "DateTime", "<", "Utc", ">", "Utc", "timestamp_millis_opt(", "v2", "get_time(", "as", "i64", "unwrap(", "§", "From", "<", "DateTime", "<", "Utc", ">>", "for", "v1", "Date", "from(", "v2", "DateTime", "<", "Utc", ">", "->", "v1", "Date", "v3", "v4", "JsValue", "from_f64(", "v2", "timestamp_millis(", "as", "f64", "v1", "Date", "new(", "&", "v3"] := by decide +kernel
@@ -125,6 +129,10 @@ theorem src_naive_datetime_mod_rs_fn_timestamp_subsec_millis : C02_src_naive_dat
 /-- src/naive/datetime/mod.rs:fn timestamp_subsec_nanos -/
 theorem src_naive_datetime_mod_rs_fn_timestamp_subsec_nanos : C02_src_naive_datetime_mod_rs_fn_timestamp_subsec_nanos =
     ["&", "self", "->", "u32", "self", "and_utc(", "timestamp_subsec_nanos("] := by decide +kernel
+
+/-- src/offset/mod.rs:fn from_utc_datetime -/
+theorem src_offset_mod_rs_fn_from_utc_datetime : C02_src_offset_mod_rs_fn_from_utc_datetime =
+    ["&", "self", "v1", "&", "NaiveDateTime", "->", "DateTime", "<", "Self", ">", "DateTime", "from_naive_utc_and_offset(", "*", "v1", "self", "offset_from_utc_datetime(", "v1"] := by decide +kernel
 
 /-- src/offset/mod.rs:fn timestamp -/
 theorem src_offset_mod_rs_fn_timestamp : C02_src_offset_mod_rs_fn_timestamp =
@@ -189,10 +197,6 @@ theorem callee_src_naive_time_mod_rs_fn_from_num_seconds_from_midnight_opt : C02
 /-- callee src/offset/fixed.rs:fn east_opt -/
 theorem callee_src_offset_fixed_rs_fn_east_opt : C02_callee_src_offset_fixed_rs_fn_east_opt =
     ["v1", "i32", "->", "Option", "<", "FixedOffset", ">", "if", "-", "86400", "<", "v1", "&&", "v1", "<", "86400", "Some(", "FixedOffset", "v2", "v1", "else", "None"] := by decide +kernel
-
-/-- callee src/offset/mod.rs:fn from_utc_datetime -/
-theorem callee_src_offset_mod_rs_fn_from_utc_datetime : C02_callee_src_offset_mod_rs_fn_from_utc_datetime =
-    ["&", "self", "v1", "&", "NaiveDateTime", "->", "DateTime", "<", "Self", ">", "DateTime", "from_naive_utc_and_offset(", "*", "v1", "self", "offset_from_utc_datetime(", "v1"] := by decide +kernel
 
 /-- callee src/time_delta.rs:fn subsec_nanos -/
 theorem callee_src_time_delta_rs_fn_subsec_nanos : C02_callee_src_time_delta_rs_fn_subsec_nanos =
